@@ -24,6 +24,11 @@ def run(ctx):
             for rec in nb["records"]:
                 rec["timestamp"] = (rec["timestamp"] // 1000000) * 1000000
         full = refbatch.derive(nb)
+        if i % 4 == 1:      # log-compacted shape: the first record is not at the base offset
+            k = r.choice([1, 2, 7])
+            if full["base_offset"] >= k:
+                full["base_offset"] -= k
+                full["last_offset_delta"] += k
         try:
             batches.append((f"reference-{i}", refbatch.enc_batch(full)))
         except Exception:  # noqa: out-of-range delta for struct
